@@ -258,8 +258,10 @@ func ValidHM(h, m int) bool { return (h >= 0 && h <= 23 && m >= 0 && m <= 59) ||
 func bcd2(v int) byte { return byte((v/10)<<4 | v%10) }
 
 func PutLE16(b []byte, v uint16) { b[0], b[1] = byte(v), byte(v>>8) }
-func PutLE32(b []byte, v uint32) { b[0], b[1], b[2], b[3] = byte(v), byte(v>>8), byte(v>>16), byte(v>>24) }
-func LE16(b []byte) uint16       { return uint16(b[0]) | uint16(b[1])<<8 }
+func PutLE32(b []byte, v uint32) {
+	b[0], b[1], b[2], b[3] = byte(v), byte(v>>8), byte(v>>16), byte(v>>24)
+}
+func LE16(b []byte) uint16 { return uint16(b[0]) | uint16(b[1])<<8 }
 func LE32(b []byte) uint32 {
 	return uint32(b[0]) | uint32(b[1])<<8 | uint32(b[2])<<16 | uint32(b[3])<<24
 }
@@ -586,9 +588,9 @@ func (l Layout) Raw(reply []byte) map[string]FieldValue {
 
 // Config is the part of the client configuration that flows into results.
 type Config struct {
-	Name          string // configured name of the addressed controller ("" if not configured)
+	Name           string // configured name of the addressed controller ("" if not configured)
 	ControllerPort uint16 // configured controller port (0 if none / not usable)
-	BroadcastPort uint16 // configured broadcast port (0 if no broadcast address configured)
+	BroadcastPort  uint16 // configured broadcast port (0 if no broadcast address configured)
 }
 
 // Decode gives the outcome the protocol prescribes for op(call) when the accepted reply is
